@@ -1246,6 +1246,15 @@ package larking
 //@   assume at "pc.variables[i] = &variable{" v != nil
 //@   ensures [fresh-subtrees C12 C16] forall k :: {maphas(result.segments, k)} maphas(result.segments, k) ==> isfresh(mapval(result.segments, k))
 //@   ensures [fresh-variables C12 C16] (len(result.variables) > 0 ==> isfresh(result.variables)) && (forall x :: {at(result.variables, x)} off(result.variables) <= x && x < off(result.variables) + len(result.variables) ==> isfresh(at(result.variables, x)) && isfresh(at(result.variables, x).next))
+//@   ensures [every-binding-survives-the-copy C12 C11 C02] p != nil ==> result.methodAll == p.methodAll
+//@        && (forall k :: {maphas(result.methods, k)} {maphas(p.methods, k)} maphas(p.methods, k) ==> maphas(result.methods, k) && mapval(result.methods, k) == mapval(p.methods, k))
+//@   ensures [every-literal-child-survives-the-copy C12 C11 C02] p != nil ==> (forall k :: {maphas(result.segments, k)} {maphas(p.segments, k)} maphas(p.segments, k) ==> maphas(result.segments, k))
+//@   ensures [every-variable-edge-survives-the-copy C12 C11 C02] p != nil ==> len(result.variables) == len(p.variables)
+//@   loop 1 invariant forall k :: {rangeseen(1, k)} {maphas(pc.segments, k)} rangeseen(1, k) ==> maphas(pc.segments, k)
+//@   loop 2 invariant forall k :: {maphas(pc.segments, k)} {maphas(p.segments, k)} maphas(p.segments, k) ==> maphas(pc.segments, k)
+//@   loop 3 invariant forall k :: {maphas(pc.segments, k)} {maphas(p.segments, k)} maphas(p.segments, k) ==> maphas(pc.segments, k)
+//@   loop 3 invariant len(pc.variables) == len(p.variables)
+//@   loop 3 invariant forall k :: {rangeseen(2, k)} {maphas(pc.methods, k)} rangeseen(2, k) ==> maphas(pc.methods, k) && mapval(pc.methods, k) == mapval(p.methods, k)
 //@   loop 1 invariant pc != nil && isfresh(pc) && isfresh(pc.segments) && isfresh(pc.methods) && pc.segments != pc.methods
 //@   loop 1 invariant forall k :: {maphas(pc.segments, k)} maphas(pc.segments, k) ==> isfresh(mapval(pc.segments, k))
 //@   loop 2 invariant pc != nil && isfresh(pc) && isfresh(pc.segments) && isfresh(pc.methods) && pc.segments != pc.methods
